@@ -32,10 +32,8 @@ def baseline_functions():
 
 
 def _digest(fn):
-    import hashlib
-    body = [s for s in fn.body if not (isinstance(s, ast.Expr) and isinstance(s.value, ast.Constant))]
-    txt = '\n'.join(ast.dump(s, annotate_fields=False) for s in body)
-    return hashlib.sha1(txt.encode()).hexdigest()[:16]
+    from .reasons import node_digest
+    return node_digest(fn)
 
 
 def _functions(mods):
@@ -1074,6 +1072,69 @@ def tidy(fn):
         c3 = _copyprop(fn)
         if not (c1 or c2 or c3):
             break
+
+
+def undo_renames(mods):
+    """Pure renames of private functions, undone for the analysis.  A function of the reviewed baseline is gone and a function
+    that did not exist then has exactly its body, in the same module and class: every occurrence of the new name in the package
+    is read as the old one (the new name must be new everywhere, the old one gone everywhere), so the rules, whose anchors and
+    call patterns name functions of the reviewed tree, see the tree they know.  Returns {new name: old name}."""
+    baseline = baseline_functions()
+    done = {}
+    if not baseline:
+        return done
+    base_names = {k.split(':')[1].split('.')[-1].split('#')[0].split('@')[0] for k in baseline}
+    for _round in range(12):
+        present = {key: (mod, cls, fn) for key, mod, cls, fn, _c in _functions(mods)}
+
+        def nested(k):
+            parts = k.split('#')[0].split('.')
+            return any('.'.join(parts[:i]) in baseline for i in range(1, len(parts)))
+        missing = {k: d for k, d in baseline.items() if k not in present and d and not nested(k) and '@' not in k}
+        if not missing:
+            break
+        used = set()
+        for mod, tree in mods.items():
+            if mod == 'luts':
+                continue
+            for x in ast.walk(tree):
+                if isinstance(x, ast.Name):
+                    used.add(x.id)
+                elif isinstance(x, ast.Attribute):
+                    used.add(x.attr)
+                elif isinstance(x, (ast.FunctionDef, ast.ClassDef)):
+                    used.add(x.name)
+                elif isinstance(x, ast.arg):
+                    used.add(x.arg)
+        pairs = {}
+        for old, d in sorted(missing.items()):
+            oldname = old.split(':')[1].split('.')[-1]
+            scope = old[:len(old) - len(oldname)]
+            cands = [k for k, (mod, cls, fn) in present.items() if k not in baseline and k[:len(k) - len(fn.name)] == scope and _digest(fn) == d]
+            if len(cands) != 1:
+                continue
+            newname = present[cands[0]][2].name
+            if not oldname.startswith('_') or oldname.startswith('__') or newname in base_names or oldname in used:
+                continue
+            if sum(1 for k, (m_, c_, fn) in present.items() if fn.name == newname) != sum(1 for k in missing if k.split(':')[1].split('.')[-1] == oldname):
+                continue            # the new name also names something else
+            if pairs.get(newname, oldname) != oldname:
+                continue
+            pairs[newname] = oldname
+        if not pairs:
+            break
+        for mod, tree in mods.items():
+            if mod == 'luts':
+                continue
+            for x in ast.walk(tree):
+                if isinstance(x, ast.Name) and x.id in pairs:
+                    x.id = pairs[x.id]
+                elif isinstance(x, ast.Attribute) and x.attr in pairs:
+                    x.attr = pairs[x.attr]
+                elif isinstance(x, ast.FunctionDef) and x.name in pairs:
+                    x.name = pairs[x.name]
+        done.update(pairs)
+    return done
 
 
 def integrate(mods, src):
